@@ -502,7 +502,7 @@ def _weighted_estimators(ck: Checker, prog: Program, rule: str):
         if c is False:
             return w, None
         W = l.env.get("weights")
-        ones = [sp.Function("full_like")(V, sp.Integer(1)), sp.Function("ones_like")(V)]
+        ones = [sp.Function("full_like")(V, sp.Integer(1)), sp.Function("ones_like")(V), sp.Integer(1)]     # np.ones_like(values) is read as 1 by the path table
         if W not in ones:
             return W, f"default weights are {W}, not unit weights of the shape of the values"
         hit = False
